@@ -292,7 +292,7 @@ def write_refs(gitdir, refs, packed=False):
         lines = []
         for name in sorted(refs):
             lines.append("%s %s\n" % (refs[name].oid, name))
-        with open(os.path.join(gitdir, "packed-refs"), "w") as f:
+        with open(os.path.join(gitdir, "packed-refs"), "w", encoding="utf-8") as f:
             f.write("".join(lines))
         return
     for name, o in refs.items():
@@ -583,7 +583,9 @@ def random_model(rng, size="small", hostile_names=False, hostile_commits=True, n
     # refs
     refnames = ["refs/heads/main", "refs/heads/dev", "refs/heads/feature/x", "refs/tags/v1", "refs/tags/v2",
                 "refs/remotes/origin/main", "refs/remotes/origin/dev", "refs/notes/commits", "refs/stash",
-                "refs/pull/1/head", "refs/changes/34/1234/1", "refs/foo/bar", "refs/heads/zz", "refs/tags/rel/1.0"]
+                "refs/pull/1/head", "refs/changes/34/1234/1", "refs/foo/bar", "refs/heads/zz", "refs/tags/rel/1.0",
+                # legal names with characters that Unicode (but not git) counts as white space
+                "refs/heads/wide\u3000space", "refs/tags/nb\u00a0sp/x"]
     rng.shuffle(refnames)
     k = rng.randint(1, min(8, len(refnames)))
     targets_extra = []
